@@ -64,7 +64,7 @@ def tasks(tier):
                 ts.append(("buffer", w, inv, pdir, bdir, False))
                 ts.append(("buffer", w, inv, pdir, bdir, True))
     ts += [("expr", k) for k in range(len(EXPRS))]
-    ts += [("io-use",), ("domains",), ("ctor-directions",)]
+    ts += [("io-use",), ("domains",), ("ctor-directions",), ("nested-slices",)]
     for kind in ("single", "diff"):
         for w in range(1, W + 1):
             for inv in range(1 << w):
@@ -518,6 +518,56 @@ def check_ctor_directions():
     return {"task": "ctor-directions", "paths": n, "solver_s": 0.0, "obligations": obs}
 
 
+def check_nested_slices():
+    """Buffers on slices of slices (and inversions / concatenations of slices) of real ports reach exactly the pads that plain
+    list slicing of the declared pin list selects, with the inversion of those pads: closed, every nested slice pair of a
+    5-bit single-ended and differential port, Buffer and FFBuffer, against the IOBuffer cells of the real netlist."""
+    from amaranth.hdl import IOPort, Fragment, Module, ClockDomain
+    from amaranth.hdl import _nir
+    from amaranth.hdl._ir import build_netlist
+    from amaranth.lib import io
+    N = 5
+    inv = [True, False, False, True, True]
+    obs = []
+    n = 0
+    bad = None
+    for kind in ("single", "diff"):
+        for a in range(0, N):
+            for b in range(a + 1, N + 1):
+                for c in range(0, b - a):
+                    for d in range(c + 1, b - a + 1):
+                        for bufk in ("Buffer", "FFBuffer"):
+                            n += 1
+                            if kind == "single":
+                                base = io.SingleEndedPort(IOPort(N, name="pad"), invert=inv, direction="io")
+                            else:
+                                base = io.DifferentialPort(IOPort(N, name="pad"), IOPort(N, name="padn"), invert=inv, direction="io")
+                            port = base[a:b][c:d]
+                            want_bits = list(range(N))[a:b][c:d]
+                            want_inv = inv[a:b][c:d]
+                            m = Module()
+                            m.domains += ClockDomain("sync")
+                            buf = io.Buffer("o", port) if bufk == "Buffer" else io.FFBuffer("o", port)
+                            m.submodules.buf = buf
+                            try:
+                                nl = build_netlist(Fragment.get(m, None), [buf.o, buf.oe])
+                                cells = [cl for cl in nl.cells if isinstance(cl, _nir.IOBuffer)]
+                                got = {}
+                                for cl in cells:
+                                    pname = nl.io_ports[cl.port[0].port].name if len(cl.port) else "?"
+                                    got[pname] = [ionet.bit for ionet in cl.port]
+                                ok = list(port.invert) == want_inv and got.get("pad") == want_bits and (kind == "single" or got.get("padn") == want_bits)
+                            except Exception as e:
+                                got, ok = repr(e)[:200], False
+                            if not ok and bad is None:
+                                bad = {"port": f"{kind} port of {N} bits [{a}:{b}][{c}:{d}]", "buffer": bufk, "pad bits of the IOBuffer cells": got,
+                                       "expected pad bits": want_bits, "port.invert": [bool(x) for x in port.invert], "expected inversion": want_inv,
+                                       "how": "io.Buffer / io.FFBuffer('o', port[a:b][c:d]); build_netlist; IOBuffer cell ports"}
+    obs.append({"name": f"nested-slices::buffers-reach-the-sliced-pads({n} cases)", "kind": "post", "status": "proved" if bad is None else "refuted",
+                "backend": "closed(exhaustive)", "time_s": 0.0, **({} if bad is None else {"failing_input": bad})})
+    return {"task": "nested-slices", "paths": n, "solver_s": 0.0, "obligations": obs}
+
+
 def check_domains():
     """FFBuffer / DDRBuffer constructor contract for the domains: each direction's registers are in the domain named for
     it, "sync" when not named (independently of the other direction), a domain named for a direction the buffer does not
@@ -596,6 +646,8 @@ def run_task(task):
         return check_io_use()
     if k == "domains":
         return check_domains()
+    if k == "nested-slices":
+        return check_nested_slices()
     if k == "ctor-directions":
         return check_ctor_directions()
     if k == "real-port":
